@@ -13,7 +13,7 @@
 (*   UnitRegistry(lut=dict(r.lut))      copy + defaults                       *)
 (*   UnitRegistry.from_json(r.to_json())   copy, missing defaults filled in   *)
 (*   pickle.loads(pickle.dumps(quantity))  copy, missing defaults filled in   *)
-(*   copy.deepcopy(r), Unit.copy(deep=True) copy + defaults written over it,  *)
+(*   copy.deepcopy(r), Unit.copy(deep=True) plain copy (since fix 24fb26f),    *)
 (*                                      class of the registry preserved       *)
 (*   Unit.copy()  (shallow)             shares table AND memo: returns the    *)
 (*                                      memoised original, no new registry    *)
@@ -213,13 +213,14 @@ FromJson(src) ==
      /\ tflag' = [tflag EXCEPT ![n] = [def |-> TRUE, ident |-> TRUE]]
      /\ memo' = [memo EXCEPT ![n] = NoCache]
      /\ Create(n, n, n, "custom", n)
-\* copy.deepcopy(src) : type(self)(lut=deepcopy(lut)) with the defaults written over it
+\* copy.deepcopy(src) : type(self)(lut=deepcopy(lut), add_default_symbols=False, unit_system=...) - a plain copy
+\* (since 24fb26f the defaults are no longer written over it: modified built-in symbols survive)
 DeepCopyReg(src) ==
   /\ HasFresh /\ regs[src].live
   /\ LET n == Fresh sd == regs[src].d IN
      /\ Log([op |-> "deepcopy", r |-> src, new |-> n])
-     /\ tabs' = [tabs EXCEPT ![n] = Overlay(tabs[sd])]
-     /\ tflag' = [tflag EXCEPT ![n] = [def |-> TRUE, ident |-> FALSE]]
+     /\ tabs' = [tabs EXCEPT ![n] = tabs[sd]]
+     /\ tflag' = [tflag EXCEPT ![n] = [def |-> tflag[sd].def, ident |-> FALSE]]
      /\ memo' = [memo EXCEPT ![n] = NoCache]
      /\ Create(n, n, n, regs[src].kind, n)
 \* pickle.loads(pickle.dumps(unyt_quantity(3.0, p, registry=src))).units.registry
@@ -250,10 +251,10 @@ UnitCopy(src, p, deep) ==
              /\ tabs' = [tabs EXCEPT ![sd] = x.tab] /\ memo' = [memo EXCEPT ![sc] = x.mem]
              /\ last' = [k |-> "same", r |-> src] /\ UNCHANGED <<regs, tflag>>
         ELSE LET n == Fresh IN
-             /\ tabs' = [tabs EXCEPT ![sd] = x.tab, ![n] = Overlay(x.tab)]
+             /\ tabs' = [tabs EXCEPT ![sd] = x.tab, ![n] = x.tab]
              \* the copy is built from the original's numbers (no look-up) and memoised under its string
              /\ memo' = [memo EXCEPT ![sc] = x.mem, ![n] = [NoCache EXCEPT ![p] = x.u]]
-             /\ tflag' = [tflag EXCEPT ![n] = [def |-> TRUE, ident |-> FALSE]]
+             /\ tflag' = [tflag EXCEPT ![n] = [def |-> tflag[sd].def, ident |-> FALSE]]
              /\ Create(n, n, n, regs[src].kind, n)
 
 (* ---- unit systems and namespaces created from a registry ---- *)
